@@ -188,7 +188,7 @@ func (s *Sim) view(rec *Reconcile) *recView {
 		}
 	}
 	for name, r := range v.revs {
-		if t, ok := RevTemplate(r); ok && t == v.tmpl {
+		if t, ok := RevTemplate(r); ok && sameTemplate(t, v.tmpl) {
 			v.updCand[name] = true
 		}
 	}
